@@ -78,12 +78,25 @@ add(tok("lsn_neg_xy", "lsn", SN, sign=-1.0, options=dict(curvature_type="curl(b/
 # unusual inputs that particular defects need
 add(tok("lsn_nonorth_np2", "lsn", nonorth(SN), options=dict(number_of_processors=2)), Q)
 add(tok("lsn_psi0", "lsn", SN, psi_offset=-0.764, options=dict(psi_pf_lower=0.0)), Q)
+# profile / sign options (C03, C16)
+add(tok("lsn_rev3", "lsn", SN, options=dict(reverse_current=True, reverse_Bt=True, psi_divide_twopi=True)), Q)
+add(tok("lsn_extrap", "lsn", SN, profile_grid="sep", psi_sol_norm=1.2, options=dict(extrapolate_profiles=True)), Q)
+add(tok("udn_neg", "udn", DN, sign=-1.0))
+# regridding histories (C15, C03): the final settings of *_regrid equal the settings of *_fresh
+RG1 = dict(nonorthogonal_target_all_poloidal_spacing_length=0.5, nonorthogonal_xpoint_poloidal_spacing_length=0.03, nonorthogonal_target_all_poloidal_spacing_range=0.05)
+RG2 = dict(nonorthogonal_xpoint_poloidal_spacing_range=0.01, nonorthogonal_target_all_poloidal_spacing_range_outer=0.3)
+add(tok("lsn_nonorth_regrid", "lsn", nonorth(SN), regrid=[dict(geometry_before=True, settings=RG1)]), Q)
+add(tok("lsn_nonorth_fresh", "lsn", nonorth(SN), options=RG1), Q)
+add(tok("lsn_nonorth_regrid2", "lsn", nonorth(SN), regrid=[dict(geometry_before=False, settings=RG2), dict(geometry_before=True, settings=RG1)]))
+add(tok("lsn_nonorth_regrid_back", "lsn", nonorth(SN), regrid=[dict(geometry_before=True, settings=RG1), dict(geometry_before=True, settings={})]))
+add(tok("cdn_nonorth_regrid", "cdn", nonorth(CDN), regrid=[dict(geometry_before=True, settings=RG1)]))
+add(tok("cdn_nonorth_fresh", "cdn", nonorth(CDN), options=RG1))
 add(dict(name="circ_big", kind="circular", options=dict(number_of_processors=1, nx_core=6, ny_total=16, q_coefficients=[1.5, 0.5, 2.0])))
 
 
 def builder_hash():
     h = hashlib.sha256()
-    for f in ("impl/grid.py", "analytic.py"):
+    for f in ("impl/grid.py", "analytic.py", "crit.py"):
         with open(os.path.join(common.VERIF, "harness", f), "rb") as fh:
             h.update(fh.read())
     return h.hexdigest()[:8]
